@@ -548,13 +548,13 @@ def logAt {β : Type} (i : Nat) : Trap → β × TLog → β × TLog := fun t s 
 
 /-- `A` (over base state × trap log) behaves as `B` (over the base state) on results and on the base state; the log
 component is unconstrained -/
-structure SimLog {β : Type} (A : Ops (β × TLog)) (B : Ops β) : Prop where
+structure SimLog {β : Type} (adm : Key → PD → β → Prop) (A : Ops (β × TLog)) (B : Ops β) : Prop where
   getProto : ∀ b l, ∃ l', A.getProto (b, l) = ((B.getProto b).1, ((B.getProto b).2, l'))
   setProto : ∀ p b l, ∃ l', A.setProto p (b, l) = ((B.setProto p b).1, ((B.setProto p b).2, l'))
   isExt : ∀ b l, ∃ l', A.isExt (b, l) = ((B.isExt b).1, ((B.isExt b).2, l'))
   prevExt : ∀ b l, ∃ l', A.prevExt (b, l) = ((B.prevExt b).1, ((B.prevExt b).2, l'))
   getOwn : ∀ k b l, ∃ l', A.getOwn k (b, l) = ((B.getOwn k b).1, ((B.getOwn k b).2, l'))
-  define : ∀ k d b l, ∃ l', A.define k d (b, l) = ((B.define k d b).1, ((B.define k d b).2, l'))
+  define : ∀ k d b l, adm k d b → ∃ l', A.define k d (b, l) = ((B.define k d b).1, ((B.define k d b).2, l'))
   has : ∀ k b l, ∃ l', A.has k (b, l) = ((B.has k b).1, ((B.has k b).2, l'))
   get : ∀ k r b l, ∃ l', A.get k r (b, l) = ((B.get k r b).1, ((B.get k r b).2, l'))
   set : ∀ k v r b l, ∃ l', A.set k v r (b, l) = ((B.set k v r b).1, ((B.set k v r b).2, l'))
